@@ -16,7 +16,7 @@ func init() {
 			"C11.clone — in the binding function every store to a protobuf message field (also inside the callback handed to Walk) goes through the deep copy made by proto.Clone, never through the parsed query that was passed in; " +
 			"C11.template — program-wide census: every store to a field of a generated message struct outside the generated package writes into a message created in that function (parser literals, a fresh ParseQuery result, the clone), and the statement types' stored query is assigned only at construction; hence a prepared statement's template cannot change between executions; " +
 			"C11.bounds — every non-constant index into a slice that came in as a parameter in the parser package is bounded below and above by dominating tests relating it to the slice's length (symbolic comparison of loads of the same field path and linear offsets); " +
-			"C11.arity — both statement types compare the number of supplied values with the highest placeholder number before binding, on every path, and return an error otherwise. " +
+			"C11.arity — both statement types compare the number of supplied values with the statement's placeholder count before binding, on every path, and return an error otherwise; C11.numinput — that count is the highest placeholder number: a running maximum (initialised to 0, updated only under `placeholder > maximum`) over a Walk whose callback never stops early. " +
 			"NOT decided: that the n-th argument lands exactly in $n for all n (value-level); only the index expression, its bounds and the cloning are structural.",
 		assumptions: []string{"proto.Clone makes a deep copy", "database/sql passes arguments in order", "go/ssa, dominance"},
 	})
@@ -27,6 +27,7 @@ func init() {
 			"C12.width — the single total-count row is built only under a test that the group-by list is empty (a function of the result alone cannot distinguish 'group-by, nothing matched' from 'no group-by'); " +
 			"C12.errflow — errors of ParseQuery, of the protobuf-to-query conversion, of Index.Execute and of the RPC propagate out of Prepare/Query (tested against nil, no success return and no retry on the failing branch); " +
 			"C12.cols — the column list is the group-by list followed by the constant \"count\"; the column-type methods split at len(cols)-1 with TEXT before and BIGINT at it; Next writes the count at index len(fields) and the fields at their own indices. " +
+			"C12.bind — the query executed is the deep copy of the statement's template with the arguments written into the copy only, and nothing else modifies parsed queries (so repeated executions of a prepared statement see their own arguments); C12.cacheowner — a cache requested in the DSN is created for the one index being opened. " +
 			"NOT decided: that row values and order equal the library's result (values; group order is passed through unchanged by the same loop, not proven equal); DSN option handling beyond C17.",
 		assumptions: []string{"database/sql calls Rows methods as documented", "go/ssa, dominance"},
 	})
@@ -61,6 +62,12 @@ func runC11(c *Ctx) {
 	if !c.need("C11.clone", c.a.ReplacePH, c.a.Walk, c.a.FileStmtQuery, c.a.GrpcStmtQuery, c.a.NumInput) {
 		return
 	}
+	bindRules(c, "C11.clone", "C11.template")
+	c11Rest(c)
+}
+
+// bindRules: binding writes only into the deep copy; statement templates are immutable (shared by C11 and C12).
+func bindRules(c *Ctx, cloneRule, templateRule string) {
 	msgs := pbMessages(c)
 	fr := newFresh(c)
 	// ---- clone: writes in the binding function and its closures
@@ -77,16 +84,16 @@ func runC11(c *Ctx) {
 			}
 			nStores++
 			key := fmt.Sprintf("%s: %s %s.%s", safeFname(fn), e.Kind, owner.Obj().Name(), fld.Name())
-			c.r.check(e.Fresh, "C11.clone", key, "writes into the clone", "a placeholder is bound by writing into a message that is not the deep copy made in this call: the caller's parsed query (the prepared statement's template) is modified, so later executions see the previous arguments", c.w.ipos(e.Ins))
+			c.r.check(e.Fresh, cloneRule, key, "writes into the clone", "a placeholder is bound by writing into a message that is not the deep copy made in this call: the caller's parsed query (the prepared statement's template) is modified, so later executions see the previous arguments", c.w.ipos(e.Ins))
 		}
 	}
 	if nStores == 0 {
-		c.r.undecided("C11.clone", safeFname(c.a.ReplacePH), "the binding function does not store into any message field", c.w.pos(c.a.ReplacePH.Pos()))
+		c.r.undecided(cloneRule, safeFname(c.a.ReplacePH), "the binding function does not store into any message field", c.w.pos(c.a.ReplacePH.Pos()))
 	}
 	// the result returned must be the clone as well
 	allInstrs(c.a.ReplacePH, func(i ssa.Instruction) {
 		if ret, ok := i.(*ssa.Return); ok && len(ret.Results) == 1 {
-			c.r.check(fr.level(retVals(ret)[0]) == deep, "C11.clone", safeFname(c.a.ReplacePH)+": result", "returns the deep copy",
+			c.r.check(fr.level(retVals(ret)[0]) == deep, cloneRule, safeFname(c.a.ReplacePH)+": result", "returns the deep copy",
 				"the binding function returns a query that is not a deep copy made in this call: bound values leak into the template or into other executions", c.w.ipos(i))
 		}
 	})
@@ -106,7 +113,7 @@ func runC11(c *Ctx) {
 			}
 			n++
 			key := fmt.Sprintf("%s: %s %s.%s", safeFname(fn), e.Kind, owner.Obj().Name(), fld.Name())
-			c.r.check(e.Fresh, "C11.template", key, "message created in this function", "a protobuf message that was not created in this function is modified: parsed queries held by prepared statements must never change", c.w.ipos(e.Ins))
+			c.r.check(e.Fresh, templateRule, key, "message created in this function", "a protobuf message that was not created in this function is modified: parsed queries held by prepared statements must never change", c.w.ipos(e.Ins))
 		}
 	}
 	c.r.Stats["message_field_writes_outside_generated_code"] = n
@@ -115,7 +122,7 @@ func runC11(c *Ctx) {
 		t := c.w.namedType(pkgDriver, tn)
 		q := structFieldNamed(t, "q")
 		if q == nil {
-			c.r.undecided("C11.template", tn+".q", "statement type or its query field not found")
+			c.r.undecided(templateRule, tn+".q", "statement type or its query field not found")
 			continue
 		}
 		bad := 0
@@ -124,15 +131,18 @@ func runC11(c *Ctx) {
 				for _, f := range e.fields() {
 					if f == q && !e.Fresh {
 						bad++
-						c.r.bad("C11.template", tn+".q: store in "+safeFname(fn), "the statement's query template is assigned after construction", []string{c.w.ipos(e.Ins)})
+						c.r.bad(templateRule, tn+".q: store in "+safeFname(fn), "the statement's query template is assigned after construction", []string{c.w.ipos(e.Ins)})
 					}
 				}
 			}
 		}
 		if bad == 0 {
-			c.r.ok("C11.template", tn+".q", "assigned only when the statement is constructed")
+			c.r.ok(templateRule, tn+".q", "assigned only when the statement is constructed")
 		}
 	}
+}
+
+func c11Rest(c *Ctx) {
 	// ---- bounds
 	nIdx := 0
 	for _, fn := range c.w.ModFuncs {
@@ -171,6 +181,7 @@ func runC11(c *Ctx) {
 	for _, fn := range []*ssa.Function{c.a.FileStmtQuery, c.a.GrpcStmtQuery} {
 		arityRule(c, "C11.arity", fn)
 	}
+	numInputRule(c, "C11.numinput")
 }
 
 func isParamCell(v ssa.Value) bool {
@@ -265,6 +276,12 @@ func runC12(c *Ctx) {
 	c12Width(c)
 	c12Errflow(c)
 	c12Cols(c)
+	// bound arguments and DSN cache options are part of C12's quantifier: rows are the library's result only if the
+	// executed query is the bound copy of an unmodified template and the cache belongs to this one index
+	if c.a.ReplacePH != nil {
+		bindRules(c, "C12.bind", "C12.bind")
+	}
+	cacheOwnerRule(c, "C12.cacheowner")
 }
 
 func c12Width(c *Ctx) {
@@ -545,4 +562,101 @@ func isLenOfField(v ssa.Value, f *types.Var) bool {
 		return false
 	}
 	return path(call.Call.Args[0]).lastField() == f
+}
+
+// numInputRule: the number the arity test compares against is the highest placeholder number of the statement:
+// a running maximum over all Placeholder fields visited by Walk (which must visit every node: the callback always
+// returns true), starting at 0.
+func numInputRule(c *Ctx, rule string) {
+	fn := c.a.NumInput
+	name := safeFname(fn)
+	site := c.w.pos(fn.Pos())
+	eqT := c.w.namedType(pkgProto, "Query_Expression_Equal")
+	ph := structFieldNamed(eqT, "Placeholder")
+	var cb *ssa.Function
+	allInstrs(fn, func(i ssa.Instruction) {
+		if call, ok := i.(*ssa.Call); ok && (calleeFunc(&call.Call) == c.a.Walk || calleeFunc(&call.Call) == c.a.WalkInner) && len(call.Call.Args) == 2 {
+			if mc, ok := call.Call.Args[1].(*ssa.MakeClosure); ok {
+				cb, _ = mc.Fn.(*ssa.Function)
+			}
+		}
+	})
+	if cb == nil || ph == nil {
+		c.r.undecided(rule, name, "the placeholder count is not computed by a Walk callback; the rule recognises a running maximum only", site)
+		return
+	}
+	// returned value: load of a cell initialised with 0
+	var cell ssa.Value
+	okRet := true
+	allInstrs(fn, func(i ssa.Instruction) {
+		ret, ok := i.(*ssa.Return)
+		if !ok {
+			return
+		}
+		ld, ok := peelConv(retVals(ret)[0]).(*ssa.UnOp)
+		if !ok || ld.Op != token.MUL {
+			okRet = false
+			return
+		}
+		cell = ld.X
+	})
+	if !okRet || cell == nil {
+		c.r.bad(rule, name, "the function does not return the running maximum it computes", []string{site})
+		return
+	}
+	okInit := false
+	allInstrs(fn, func(i ssa.Instruction) {
+		if st, ok := i.(*ssa.Store); ok && st.Addr == cell {
+			if k, isK := constInt(st.Val); isK && k == 0 {
+				okInit = true
+			} else {
+				okInit = false
+			}
+		}
+	})
+	// the callback: every store to the cell stores a Placeholder load under `that placeholder > current value`
+	nSt, okSt, why := 0, true, ""
+	allInstrs(cb, func(i ssa.Instruction) {
+		switch x := i.(type) {
+		case *ssa.Store:
+			if peelCell(x.Addr) != cell {
+				return
+			}
+			nSt++
+			if srcField(x.Val) != ph {
+				okSt, why = false, "something other than a placeholder number is stored as the maximum"
+				return
+			}
+			guard := false
+			for _, cm := range cmpsAt(x) {
+				if cm.Y == nil {
+					continue
+				}
+				a, b, op := cm.X, cm.Y, cm.Op
+				if op == token.LSS {
+					a, b, op = b, a, token.GTR
+				}
+				if op != token.GTR {
+					continue
+				}
+				if srcField(a) == ph && c.fc.samePathLoad(a, x.Val) {
+					if ld, ok := b.(*ssa.UnOp); ok && peelCell(ld.X) == cell {
+						guard = true
+					}
+				}
+			}
+			if !guard {
+				okSt, why = false, "the maximum is updated without the test `placeholder > current maximum`"
+			}
+		case *ssa.Return:
+			if b, isK := constBool(x.Results[0]); !isK || !b {
+				okSt, why = false, "the callback can stop the walk early, so placeholders in the rest of the tree are not counted"
+			}
+		}
+	})
+	if nSt == 0 {
+		okSt, why = false, "the callback never updates the maximum"
+	}
+	c.r.check(okRet && okInit && okSt, rule, name, "highest placeholder number: running maximum over every node, starting at 0",
+		"the value compared with the number of arguments is not the highest placeholder number ("+why+"): with gaps or repeats in the numbering too few arguments pass the arity test and a placeholder stays unbound", site)
 }
